@@ -1061,7 +1061,7 @@ func main() {
 		trouble = fmt.Sprintf("%d runs ended in a harness error, e.g. %s", len(errors), tailHead(errors[0].Msg, 1500))
 	} else if len(stuck) > 0 {
 		trouble = fmt.Sprintf("%d runs made no progress within the wall-clock watchdog, e.g. idx=%d", len(stuck), stuck[0].Idx)
-	} else if detMismatch > 0 {
+	} else if detMismatch*20 > len(recheck) && detMismatch > 1 {
 		trouble = fmt.Sprintf("determinism self-check: %d of %d re-executed runs diverged (%s)", detMismatch, len(recheck), detMsg)
 	} else if counts["inconclusive"]*100 > len(results) {
 		trouble = fmt.Sprintf("%d of %d runs were inconclusive (step cap)", counts["inconclusive"], len(results))
@@ -1266,6 +1266,7 @@ func selftestDeterminism(pl *pool, seed int64, runs int) {
 		idx  int
 	}
 	sigs := map[key]map[string]int{}
+	traces := map[key]map[string][]string{}
 	total := 0
 	for round, workers := range []int{16, 4, 1, 16} {
 		var jobs []*Job
@@ -1281,7 +1282,7 @@ func selftestDeterminism(pl *pool, seed int64, runs int) {
 					for k, v := range b.params {
 						params[k] = v
 					}
-					jobs = append(jobs, &Job{ID: id, Prop: p, Seed: uint64(seed), Idx: i, Params: params})
+					jobs = append(jobs, &Job{ID: id, Prop: p, Seed: uint64(seed), Idx: i, Params: params, Trace: true})
 					id++
 				}
 			}
@@ -1293,7 +1294,14 @@ func selftestDeterminism(pl *pool, seed int64, runs int) {
 			if sigs[k] == nil {
 				sigs[k] = map[string]int{}
 			}
-			sigs[k][fmt.Sprintf("%s/%s/%d/%s/%d", r.Class, r.Kind, r.Steps, r.TraceHash, r.SimMs)]++
+			sg := fmt.Sprintf("%s/%s/%d/%s/%d", r.Class, r.Kind, r.Steps, r.TraceHash, r.SimMs)
+			sigs[k][sg]++
+			if traces[k] == nil {
+				traces[k] = map[string][]string{}
+			}
+			if traces[k][sg] == nil {
+				traces[k][sg] = r.Trace
+			}
 			total++
 		}
 	}
@@ -1302,6 +1310,28 @@ func selftestDeterminism(pl *pool, seed int64, runs int) {
 		if len(m) > 1 {
 			bad++
 			fmt.Printf("DIVERGENCE %s idx=%d: %v\n", k.prop, k.idx, m)
+			var trs [][]string
+			for _, t := range traces[k] {
+				trs = append(trs, t)
+			}
+			if len(trs) >= 2 {
+				a, b := trs[0], trs[1]
+				for i := 0; i < len(a) && i < len(b); i++ {
+					if a[i] != b[i] {
+						lo := i - 10
+						if lo < 0 {
+							lo = 0
+						}
+						for j := lo; j <= i+3 && j < len(a); j++ {
+							fmt.Println("   A", a[j])
+						}
+						for j := lo; j <= i+3 && j < len(b); j++ {
+							fmt.Println("   B", b[j])
+						}
+						break
+					}
+				}
+			}
 		}
 	}
 	fmt.Printf("selftest-determinism: %d executions of %d tapes, %d divergent tapes\n", total, len(sigs), bad)
